@@ -17,6 +17,7 @@ Directives (payload = the plain lines that follow, up to the next `//@` line):
   //@ before "<anchor>"          payload inserted before the line containing the anchor
   //@ after "<anchor>"           payload inserted after the statement starting on the anchor's line
   //@ rewrite "<from>" "<to>"    literal replacement inside the extracted text (must hit at least once)
+  //@ rewrite-re "<regex>" "<to>" regex (DOTALL) replacement, same rule
   //@ wrap                       (block only) payload = wrapper signature + contract, e.g. `fn f(x: u32) -> (r: u32) requires ..`
   //@ prologue / epilogue        (block only) payload placed before / after the region inside the wrapper
   //@ end
@@ -48,6 +49,49 @@ GLOBAL_REWRITES = [
     ("R7", re.compile(r"(?m)^[ \t]*#\[(?:inline|cold|must_use|cfg_attr\(test,[^\]]*\)|cfg_attr\(coverage_nightly[^\]]*\)|inline\(always\)|inline\(never\))\][^\n]*\n"),
      lambda m: "", "attribute lines #[inline]/#[cold]/#[must_use]/#[cfg_attr(test,..)] dropped"),
 ]
+
+
+def _split_top_commas(s):
+    parts, depth, cur = [], 0, []
+    for ch in s:
+        if ch in "([{":
+            depth += 1
+        elif ch in ")]}":
+            depth -= 1
+        if ch == "," and depth == 0:
+            parts.append("".join(cur))
+            cur = []
+        else:
+            cur.append(ch)
+    parts.append("".join(cur))
+    return parts
+
+
+def rewrite_assert_macros(text):
+    """R8: debug_assert_ne!(a, b, ..) -> debug_assert!(a != b); debug_assert_eq!/assert_eq!/assert_ne! likewise.
+    (Verus has no spec for core::panicking::assert_failed; the boolean form panics under exactly the same condition.
+    Message arguments are dropped.)"""
+    n = 0
+    out = []
+    i = 0
+    rx = re.compile(r"\b(debug_assert|assert)_(ne|eq)!\(")
+    while True:
+        m = rx.search(text, i)
+        if not m:
+            out.append(text[i:])
+            break
+        ob = m.end() - 1
+        from rustlex import mask as _mask
+        cb = match_close(_mask(text), ob)
+        args = _split_top_commas(text[ob + 1:cb])
+        if len(args) < 2:
+            raise ExtractError("assert macro with <2 args")
+        op = "!=" if m.group(2) == "ne" else "=="
+        out.append(text[i:m.start()])
+        out.append(f"{m.group(1)}!(({args[0].strip()}) {op} ({args[1].strip()}))")
+        i = cb + 1
+        n += 1
+    return "".join(out), n
 
 
 def parse_template(text):
@@ -108,7 +152,11 @@ def _sel(selector):
 
 
 class Extractor:
-    def __init__(self, repo_root):
+    def __init__(self, repo_root, twin=False):
+        # twin=True: vacuity twin - `assert(false)` is placed at the start of every contracted body; it must FAIL
+        # (it is reachable iff the function's `requires` is satisfiable)
+        self.twin = twin
+        self.twinned = []
         self.repo = repo_root
         self.cache = {}
         self.log = {"items": [], "rewrites": {}, "local_rewrites": []}
@@ -141,6 +189,8 @@ class Extractor:
             elif d == "spec":
                 if body_open is None:
                     raise ExtractError("spec section needs a function")
+                if self.twin:
+                    inserts.append((body_open + 1, " proof { assert(false); } ", 10**6))
                 inserts.append((body_open, "\n" + payload + "\n", order))
             elif d.startswith("loop "):
                 n = int(d.split()[1])
@@ -170,6 +220,11 @@ class Extractor:
                 if not m:
                     raise ExtractError(f"bad rewrite directive: {d}")
                 local_rw.append((m.group(1).replace('\\"', '"'), m.group(2).replace('\\"', '"')))
+            elif d.startswith("rewrite-re "):
+                m = re.match(r'rewrite-re\s+"((?:[^"\\]|\\.)*)"\s+"((?:[^"\\]|\\.)*)"\s*$', d)
+                if not m:
+                    raise ExtractError(f"bad rewrite-re directive: {d}")
+                local_rw.append((re.compile(m.group(1).replace('\\"', '"'), re.S), m.group(2).replace('\\"', '"')))
             elif d in ("wrap", "prologue", "epilogue"):
                 pass
             else:
@@ -219,12 +274,20 @@ class Extractor:
             text, n = rx.subn(repl, text)
             if n:
                 self.log["rewrites"].setdefault(name, {"hits": 0, "why": why})["hits"] += n
+        text, n8 = rewrite_assert_macros(text)
+        if n8:
+            self.log["rewrites"].setdefault("R8", {"hits": 0, "why": rewrite_assert_macros.__doc__.strip()})["hits"] += n8
         for frm, to in local_rw:
-            n = text.count(frm)
+            if isinstance(frm, str):
+                n = text.count(frm)
+                text = text.replace(frm, to)
+                frm_s = frm
+            else:
+                text, n = frm.subn(to, text)
+                frm_s = "re:" + frm.pattern
             if n == 0:
-                raise ExtractError(f"{where}: rewrite {frm!r} matched nothing")
-            text = text.replace(frm, to)
-            self.log["local_rewrites"].append({"where": where, "from": frm, "to": to, "hits": n})
+                raise ExtractError(f"{where}: rewrite {frm_s!r} matched nothing")
+            self.log["local_rewrites"].append({"where": where, "from": frm_s, "to": to, "hits": n})
         if "get_unchecked" in text:
             raise ExtractError(f"{where}: get_unchecked survived the rewrite table")
         return text
@@ -281,6 +344,8 @@ class Extractor:
                 epi = "\n" + "\n".join(sec["payload"]).rstrip()
         if not wrap:
             raise ExtractError(f"{head}: block needs a //@ wrap section")
+        if self.twin:
+            pro = "proof { assert(false); }\n" + pro
         text = self.rewrite(text, local_rw, f"{rel}::{selector}@{a1!r}")
         self.log["items"].append({"kind": "block", "file": rel, "selector": selector, "anchor": a1,
                                   "lines": [line_of(src, ls1), line_of(src, e)]})
@@ -343,6 +408,29 @@ class Extractor:
             out.append(txt)
             cur_line += txt.count("\n") + 1
         return "\n".join(out)
+
+
+def twin_payload(payload):
+    """Replace the `ensures` clause list (an `ensures` keyword at the start of a line up to a following
+    line-initial `decreases`, or the end) by `ensures false,`."""
+    lines = payload.split("\n")
+    out = []
+    skipping = False
+    found = False
+    for ln in lines:
+        st = ln.strip()
+        if re.match(r"ensures\b", st):
+            out.append("    ensures false,")
+            skipping = True
+            found = True
+            continue
+        if skipping and re.match(r"(decreases|requires)\b", st):
+            skipping = False
+        if not skipping:
+            out.append(ln)
+    if not found:
+        out.append("    ensures false,")
+    return "\n".join(out)
 
 
 def scan_assumptions(text):
